@@ -414,6 +414,270 @@ func c61Run(c *vx.Ctx, cfg *c61Cfg, depth int, totalOnly bool) {
 	})
 }
 
+// ---- differential (metamorphic) part -------------------------------------
+//
+// Which of two adjacent buckets an observation stamped exactly on their common
+// boundary belongs to is a convention of the implementation, so the reference
+// list cannot say where such an observation has to be reported. Whatever the
+// convention is, the property makes the answer to an aligned range question a
+// function of the observations (time, value) alone: it may not depend on
+// whether reads (Total, or a clock-driven Latest/LatestBuckets that rolls the
+// buckets forward) happened between the AddWithTime calls, nor on the order in
+// which the observations arrived. The differential part therefore runs every
+// history on the real series and compares its buckets with those of twin
+// series that received the same observations (a) without the interleaved reads
+// and (b) without the reads and in order of their timestamps. All series are
+// brought to the same, convention-independent window first: a final
+// clock-driven read at a mid-bucket instant not earlier than anything seen.
+
+type c61DAdd struct {
+	t   int64
+	idx int
+}
+
+type c61DState struct {
+	cfg      *c61Cfg
+	clk      *c61Clock
+	ser      c61Series
+	adds     []c61DAdd // observations since the last Clear, in arrival order
+	nAdds    int
+	maxH     int64 // latest instant of the whole history (observation or clock), in half seconds from R
+	seen     bool
+	readDiff bool // since the last Clear, a read was followed by an AddWithTime
+	readPend bool
+	clr      bool
+}
+
+func c61DObs(idx int) timeseries.Observable {
+	f := timeseries.Float(float64(uint64(1) << uint(idx)))
+	return &f
+}
+
+func (d *c61DState) see(h int64) {
+	if !d.seen || h > d.maxH {
+		d.maxH, d.seen = h, true
+	}
+}
+
+func (d *c61DState) hist() string {
+	var b strings.Builder
+	for _, o := range d.adds {
+		fmt.Fprintf(&b, "#%d@%s ", o.idx, c61Rel(o.t))
+	}
+	return strings.TrimSpace(b.String())
+}
+
+// trigger names the abstract situation: does the history (since Clear) hold an
+// observation stamped exactly on a level-0 bucket boundary or not.
+func (d *c61DState) trigger() string {
+	t := "mid-bucket-instants"
+	for _, o := range d.adds {
+		if (o.t-c61R)%d.cfg.sizes[0] == 0 {
+			t = "boundary-instant"
+		}
+	}
+	if d.clr {
+		t += "-after-clear"
+	}
+	return t
+}
+
+func (d *c61DState) apply(w *vx.W, op c61Op) bool {
+	switch op.K {
+	case 'a':
+		t := c61R + op.H*c61Half
+		d.ser.AddWithTime(c61DObs(d.nAdds), c61T(t))
+		d.adds = append(d.adds, c61DAdd{t, d.nAdds})
+		d.nAdds++
+		d.see(op.H)
+		if d.readPend {
+			d.readDiff = true
+		}
+		w.Outcome("add")
+	case 't':
+		d.readPend = true
+		w.Outcome("total")
+		return d.total(w, d.ser.Total())
+	case 'c':
+		d.ser.Clear()
+		d.adds, d.readDiff, d.readPend, d.clr = nil, false, false, true
+		w.Outcome("clear")
+	case 'l':
+		d.clk.ns = c61R + op.H*c61Half
+		d.see(op.H)
+		d.readPend = true
+		// both clock-driven entry points; the values are not judged here
+		d.ser.Latest(0, 1)
+		d.ser.LatestBuckets(len(d.cfg.sizes)-1, 1)
+		w.Outcome("latest")
+	default:
+		panic("c61 harness: bad op")
+	}
+	return true
+}
+
+func (d *c61DState) total(w *vx.W, got timeseries.Observable) bool {
+	f, ok := got.(*timeseries.Float)
+	if !ok || f == nil {
+		w.Failf("C61/total/nil-result", "%s: Total() returned %T", d.cfg.name, got)
+		return false
+	}
+	var want float64
+	for _, o := range d.adds {
+		want += float64(uint64(1) << uint(o.idx))
+	}
+	if f.Value() != want {
+		w.Failf("C61/total/"+d.trigger(), "%s: Total() = %v, the observations added give %v; history %s", d.cfg.name, f.Value(), want, d.hist())
+		return false
+	}
+	return true
+}
+
+// c61Snap brings ser to the window ending at the clock instant fin (a
+// clock-driven read) and returns, per level, the content of every bucket of
+// the retained window (oldest first, by ComputeRange) followed by the three
+// newest buckets as LatestBuckets reports them (newest first).
+func c61Snap(cfg *c61Cfg, ser c61Series, clk *c61Clock, fin int64) ([][]float64, string) {
+	clk.ns = fin
+	ser.Latest(0, 1)
+	out := make([][]float64, len(cfg.sizes))
+	val := func(o timeseries.Observable) (float64, bool) {
+		f, ok := o.(*timeseries.Float)
+		if !ok || f == nil {
+			return 0, false
+		}
+		return f.Value(), true
+	}
+	for l, sz := range cfg.sizes {
+		end := c61Ceil(fin, sz)
+		ws := end - int64(cfg.n)*sz
+		vals := ser.ComputeRange(c61T(ws), c61T(end), cfg.n)
+		lb := ser.LatestBuckets(l, 3)
+		if len(vals) != cfg.n || len(lb) != 3 {
+			return nil, fmt.Sprintf("level %d: ComputeRange(window, %d) returned %d values, LatestBuckets(%d,3) %d", l, cfg.n, len(vals), l, len(lb))
+		}
+		for _, o := range append(vals, lb...) {
+			v, ok := val(o)
+			if !ok {
+				return nil, fmt.Sprintf("level %d: a result is %T", l, o)
+			}
+			out[l] = append(out[l], v)
+		}
+	}
+	return out, ""
+}
+
+// c61Twin is a fresh series that receives the given observations and nothing else.
+func c61Twin(cfg *c61Cfg, adds []c61DAdd, fin int64) ([][]float64, string) {
+	s := c61New(cfg)
+	for _, o := range adds {
+		s.ser.AddWithTime(c61DObs(o.idx), c61T(o.t))
+	}
+	return c61Snap(cfg, s.ser, s.clk, fin)
+}
+
+func (d *c61DState) diff(w *vx.W, clause string, a, b [][]float64, fin int64, whatA, whatB string) bool {
+	for l, sz := range d.cfg.sizes {
+		end := c61Ceil(fin, sz)
+		ws := end - int64(d.cfg.n)*sz
+		for j := range a[l] {
+			if a[l][j] == b[l][j] {
+				continue
+			}
+			var where string
+			if j < d.cfg.n {
+				where = fmt.Sprintf("ComputeRange(window of level %d, %d)[%d] = bucket %s..%s", l, d.cfg.n, j, c61Rel(ws+int64(j)*sz), c61Rel(ws+int64(j+1)*sz))
+			} else {
+				k := j - d.cfg.n
+				where = fmt.Sprintf("LatestBuckets(%d,3)[%d] = bucket %s..%s", l, k, c61Rel(end-int64(k+1)*sz), c61Rel(end-int64(k)*sz))
+			}
+			w.Failf("C61/"+clause+"/"+d.trigger(), "%s: observations %s (#i is worth 2^i), all series read at clock %s: %s holds %v %s but %v %s", d.cfg.name, d.hist(), c61Rel(fin), where, a[l][j], whatA, b[l][j], whatB)
+			return false
+		}
+	}
+	return true
+}
+
+func (d *c61DState) final(w *vx.W) {
+	if !d.total(w, d.ser.Total()) {
+		return
+	}
+	if len(d.adds) == 0 {
+		w.Outcome("diff-nothing-to-compare")
+		return
+	}
+	// a mid-bucket instant (of every level) not earlier than anything seen
+	fin := c61R + (d.maxH-((d.maxH%2)+2)%2)*c61Half + c61Half
+	sorted := append([]c61DAdd(nil), d.adds...)
+	inOrder := true
+	for i := 1; i < len(sorted); i++ { // stable insertion sort by timestamp
+		for j := i; j > 0 && sorted[j].t < sorted[j-1].t; j-- {
+			sorted[j], sorted[j-1] = sorted[j-1], sorted[j]
+			inOrder = false
+		}
+	}
+	if !d.readDiff && !d.clr && inOrder {
+		w.Outcome("diff-nothing-to-compare") // the history is its own twin
+		return
+	}
+	real, msg := c61Snap(d.cfg, d.ser, d.clk, fin)
+	if msg != "" {
+		w.Failf("C61/range/length", "%s: %s; history %s", d.cfg.name, msg, d.hist())
+		return
+	}
+	plain := real
+	if d.readDiff || d.clr {
+		plain, msg = c61Twin(d.cfg, d.adds, fin)
+		if msg != "" {
+			w.Failf("C61/range/length", "%s: %s; observations %s", d.cfg.name, msg, d.hist())
+			return
+		}
+		clause, how := "read-independence", "in the series of the history, where reads (Total / clock-driven Latest, LatestBuckets) preceded later AddWithTime calls"
+		if !d.readDiff {
+			clause, how = "fresh-after-clear", "in the series of the history, which was used and cleared before"
+		}
+		if !d.diff(w, clause, real, plain, fin, how, "in a fresh series given only these AddWithTime calls") {
+			return
+		}
+	}
+	if !inOrder {
+		ord, msg := c61Twin(d.cfg, sorted, fin)
+		if msg != "" {
+			w.Failf("C61/range/length", "%s: %s; observations %s in timestamp order", d.cfg.name, msg, d.hist())
+			return
+		}
+		if !d.diff(w, "order-independence", plain, ord, fin, "when added in this order", "when added in order of their timestamps") {
+			return
+		}
+		w.Outcome("diff-order-compared")
+	} else {
+		w.Outcome("diff-reads-compared")
+	}
+	w.Nontrivial()
+}
+
+func c61RunDiff(c *vx.Ctx, cfg *c61Cfg, depth int) {
+	var ops []c61Op
+	for _, h := range cfg.adds {
+		ops = append(ops, c61Op{K: 'a', H: h})
+	}
+	for _, h := range cfg.clks {
+		ops = append(ops, c61Op{K: 'l', H: h})
+	}
+	ops = append(ops, c61Op{K: 't'}, c61Op{K: 'c'})
+	vx.Seq(c, vx.SeqSpec[*c61DState, c61Op]{
+		Part: cfg.name,
+		New: func() *c61DState {
+			s := c61New(cfg)
+			return &c61DState{cfg: cfg, clk: s.clk, ser: s.ser}
+		},
+		Ops:   ops,
+		Depth: depth,
+		Apply: func(w *vx.W, d *c61DState, op c61Op) bool { return d.apply(w, op) },
+		Final: func(w *vx.W, d *c61DState) { d.final(w) },
+	})
+}
+
 var (
 	c61TsSizes = []int64{1e9, 10e9, 60e9, 600e9, 3600e9, 6 * 3600e9, 24 * 3600e9, 7 * 24 * 3600e9, 28 * 24 * 3600e9, 112 * 24 * 3600e9}
 	c61MhSizes = []int64{1e9, 60e9}
@@ -437,10 +701,15 @@ func c61PM(hs ...int64) []int64 {
 func TestVerif_C61(t *testing.T) {
 	vx.Run(t, "C61", func(c *vx.Ctx) {
 		const h1, d200 = 2*3600 + 1, 2*200*24*3600 + 1
-		tsAdds := c61PM(1, 3, 127, 129, 141, h1, d200)  // ±0.5 s, 1.5 s, 63.5 s, 64.5 s, 70.5 s, 1 h+0.5 s, 200 d+0.5 s
-		mhAdds := c61PM(1, 3, 119, 121, 141, h1, d200)  // the MinuteHourSeries keeps 60 buckets
-		clks := []int64{1, 127, 141, h1}                  // clock instants for Latest: R+0.5 s, +63.5 s, +70.5 s, +1 h
+		tsAdds := c61PM(1, 3, 127, 129, 141, h1, d200)   // ±0.5 s, 1.5 s, 63.5 s, 64.5 s, 70.5 s, 1 h+0.5 s, 200 d+0.5 s
+		mhAdds := c61PM(1, 3, 119, 121, 141, h1, d200)   // the MinuteHourSeries keeps 60 buckets
+		clks := []int64{1, 127, 141, h1}                 // clock instants for Latest: R+0.5 s, +63.5 s, +70.5 s, +1 h
 		bndAdds := []int64{0, 2, -2, 128, -128, 1, 7200} // exact bucket boundaries (and one mid-bucket instant)
+		// differential part: instants exactly on bucket boundaries next to mid-bucket ones
+		tsDiffAdds := []int64{0, 2, -2, 1, -1, 3, 20, -128, -127, 7200}  // R, R±1 s, R±0.5 s, R+1.5 s, R+10 s, R-64 s, R-63.5 s, R+1 h
+		tsDiffClks := []int64{1, 2, 4, 21, 128}                          // R+0.5 s, R+1 s, R+2 s, R+10.5 s, R+64 s
+		mhDiffAdds := []int64{0, 2, -2, 1, -1, 3, 120, -120, -119, 7200} // R+60 s, R-60 s, R-59.5 s for the 60-bucket levels
+		mhDiffClks := []int64{1, 2, 4, 121, 120}
 		dTS := vx.Pick(c, 3, 4) // ten levels x 64 buckets: every replay allocates ~1300 objects inside the real code
 		dMH := vx.Pick(c, 4, 5)
 		c.Rule(fmt.Sprintf("depth-bounded search (TimeSeries depth %d, MinuteHourSeries depth %d; with the histogram observable MinuteHourSeries one less) over every sequence of AddWithTime(2^i, t) for the i-th observation with t = R ± {0.5 s, 1.5 s, 63.5 s (59.5 s), 64.5 s (60.5 s), 70.5 s, 1 h+0.5 s, 200 d+0.5 s} (R a boundary of every level; mid-bucket instants, in and out of order, far past and far future), Total, {clock := R + 0.5 s|63.5 s|70.5 s|1 h; Latest/LatestBuckets of every level}, Clear, on TimeSeries and MinuteHourSeries with a harness clock, each with Float and with trace's histogram as Observable; after every history: Total, and for every level the whole retained window (one value, one value per bucket, two halves) and the aligned ranges around every bucket holding an observation, compared with the list of (time, value) pairs; non-trivial = history whose final range questions were all asked and compared", dTS, dMH))
@@ -457,5 +726,7 @@ func TestVerif_C61(t *testing.T) {
 			c61Run(c, &c61Cfg{name: "MinuteHourSeries/" + obs, sizes: c61MhSizes, n: 60, hist: hist, mh: true, adds: mhAdds, clks: clks}, c61MhDepth(dMH, hist), false)
 		}
 		c61Run(c, &c61Cfg{name: "TimeSeries/float/boundary-total", sizes: c61TsSizes, n: 64, adds: bndAdds, clks: []int64{0, 128}}, dTS, true)
+		c61RunDiff(c, &c61Cfg{name: "TimeSeries/float/differential", sizes: c61TsSizes, n: 64, adds: tsDiffAdds, clks: tsDiffClks}, dTS)
+		c61RunDiff(c, &c61Cfg{name: "MinuteHourSeries/float/differential", sizes: c61MhSizes, n: 60, mh: true, adds: mhDiffAdds, clks: mhDiffClks}, dMH)
 	})
 }
